@@ -654,6 +654,31 @@ pub fn run_c06(ctx: &Ctx) -> i32 {
     finish(ctx, &info, cov, &["alphabet {'/', '.', 'a', 'b', 'é'}; longer strings and other characters are not covered"], &vio)
 }
 
+/// Join on every string up to length `l`: only the findings about the invalid-path classification
+/// (trailing slashes rejected as InvalidPath naming the argument, nothing else rejected) - C12.
+pub fn invalid_path_sweep(l: usize) -> (u64, Vec<Violation>) {
+    let r1 = VfsPath::new(MemoryFS::new());
+    let r2 = VfsPath::new(MemoryFS::new());
+    let (n1, f1, _) = sweep("VfsPath", &r1, &r2, l, 1, &SIGMA);
+    let a1 = AsyncVfsPath::new(AsyncMemoryFS::new());
+    let a2 = AsyncVfsPath::new(AsyncMemoryFS::new());
+    let (n2, f2, _) = sweep("AsyncVfsPath", &a1, &a2, l, 1, &SIGMA);
+    let mut seen = std::collections::BTreeSet::new();
+    let v = f1
+        .into_iter()
+        .chain(f2)
+        .filter(|f| ["accepted-trailing-slash", "wrong-error-kind", "error-path", "rejected-valid"].iter().any(|k| f.sig.contains(k)))
+        .filter(|f| seen.insert(f.sig.clone()))
+        .map(|f| Violation {
+            property: "C12".into(),
+            signature: f.sig.clone(),
+            summary: f.what.clone(),
+            replay: json!({"engine": "path", "finding": f.what}),
+        })
+        .collect();
+    (n1 + n2, v)
+}
+
 /// Join on every string up to length `l` (VfsPath and AsyncVfsPath); only panics are returned (C13).
 pub fn panic_sweep(l: usize) -> (u64, Vec<Violation>) {
     let r1 = VfsPath::new(MemoryFS::new());
